@@ -84,6 +84,12 @@ def table_rules(facts):
     return out
 
 
+def _all_nodes(n):
+    acc = []
+    walk(n, lambda x: acc.append(x))
+    return acc
+
+
 def probe_rules(facts):
     """u32_table probes advance with `(p + 1) & mask` only (the table is circular).  Independent of local names: a probe loop is a
     loop whose condition reads `slots[..]` directly or through a local that is assigned from `slots[..]`; the cursor is the local
@@ -114,7 +120,10 @@ def probe_rules(facts):
             walk(e, v)
             return hit[0]
         for L in loops:
-            if L.get("c") is None or not reads_slots(L["c"]):
+            # the exit test reads the table: in the loop condition, or in an `if (..) break / return` of a `while (true)` body
+            exits = []
+            walk(L.get("b"), lambda n: exits.append(n) if n.get("k") == "If" and reads_slots(n.get("c")) and any(x.get("k") in ("Break", "Return") for x in _all_nodes(n.get("t"))) else None)
+            if not ((L.get("c") is not None and reads_slots(L["c"])) or exits):
                 continue
             # cursors: locals used as the index of slots inside the loop (or in its condition)
             cursors = set()
@@ -137,7 +146,7 @@ def probe_rules(facts):
                 else:
                     probs.append("probe advanced by `%s` (not `(p + 1) & mask`)" % txt(a))
             if L.get("k") == "For" and L.get("inc") is not None and not advs:
-                probs.append("the probe sequence is a bounded `for` loop (`%s`): it stops at the end of the array instead of wrapping to slot 0" % txt(L["c"]))
+                probs.append("the probe sequence is a bounded `for` loop (`%s`): it stops at the end of the array instead of wrapping to slot 0" % txt(L.get("c")))
         if probs:
             out.append(ob("cpc.probe", key, fn["pat"], "violated", "; ".join(probs) + ": entries of a cluster that wraps past the last slot become unreachable", fn["qname"]))
         elif n_adv:
